@@ -63,6 +63,19 @@ def run(v, tier):
     for p in rng.sample(pool, min(len(pool), n)):     # instantiation
         for d in deltas(rng, p, 1) + rng.sample(adversarial_deltas(p), 1):
             add({'fn': 'instantiate_rule', 'p': p, 'd': d}, {'rule': 'inst', 'p': p, 'd': d})
+    # premises with a pending substitution on a metavariable, instantiated with notation applications whose DEFINITION binds
+    # (or does not mention) the substituted variable while the argument mentions it
+    I_, M_ = pi2v.NINST, pi2v.MV
+    fx = lambda i: pi2v.APP(pi2v.SYM(0), pi2v.EV(i))
+    bind = [lambda a: I_(pi2v.EX(0, M_(0)), [(0, a)]), lambda a: I_(pi2v.EX(1, M_(0)), [(0, a)]), lambda a: I_(pi2v.MU(1, pi2v.IMP(M_(0), pi2v.SV(1))), [(0, a)]),
+            lambda a: N['neg'](I_(pi2v.EX(0, M_(0)), [(0, N['neg'](a))])), lambda a: I_(I_(pi2v.EX(0, M_(0)), [(0, M_(0))]), [(0, a)]), lambda a: I_(M_(0), [(0, a)])]
+    prem = [pi2v.IMP(pi2v.ES(M_(0), 0, pi2v.EV(1)), pi2v.EX(0, M_(0))), pi2v.IMP(pi2v.ES(M_(0), 1, pi2v.EV(0)), M_(1)), pi2v.ES(M_(0), 0, M_(1)),
+            pi2v.IMP(pi2v.SS(M_(0), 1, M_(1)), M_(0)), pi2v.IMP(M_(1), pi2v.ES(pi2v.ES(M_(0), 0, pi2v.EV(1)), 1, pi2v.EV(0)))]
+    for p in prem:
+        for b in bind:
+            for arg in (fx(0), fx(1), pi2v.IMP(pi2v.EV(0), pi2v.SV(1)), pi2v.SV(1)):
+                add({'fn': 'instantiate_rule', 'p': p, 'd': [[0, b(arg)]]}, {'rule': 'inst', 'p': p, 'd': [[0, b(arg)]]})
+                add({'fn': 'instantiate_rule', 'p': p, 'd': [[1, pi2v.EV(0)], [0, b(arg)]]}, {'rule': 'inst', 'p': p, 'd': [[1, pi2v.EV(0)], [0, b(arg)]]})
     res = py_run(cmds)
     cases = []
     for m, r in zip(meta, res):
